@@ -749,4 +749,353 @@ theorem rj_drop (B : KMap Nat BlockRec) (Tv : KMap TxKey Tx) (blk : Block) (D : 
     show (Tv.erase ⟨T, blk⟩).find? dk.txKey = some rec0
     rw [find?_erase_ne _ (fun e => hne e.symm)]; exact hr0
 
+/-! ### one transaction of a detached block -/
+
+theorem withIdx_spec {α : Type} (l : List α) : ∀ p ∈ withIdx l, l[p.1]? = some p.2 := by
+  intro p hp
+  obtain ⟨i, a⟩ := p
+  have := (withIdx_mem l 0 i a hp).2
+  simpa using this
+
+theorem rj_rbTx (B : KMap Nat BlockRec) (blk : Block) (D : List Nat) (r r' : RB) (T : Nat) (br : BlockRec)
+    (rest : List Nat) (hj : RJ B r.s.txrecs blk D r)
+    (hB : B.find? blk.height = some br) (hbh : br.hash = blk.hash) (htxs : br.txs = T :: rest)
+    (h : rbTx blk r T = .ok r') :
+    RJ (B.insert blk.height { br with txs := rest }) r'.s.txrecs blk (T :: D) r' := by
+  have hw := hj.wf
+  have hblkeq : (⟨blk.height, br.hash⟩ : Block) = blk := by rw [hbh]
+  have hsome : (r.s.txrecs.find? ⟨T, blk⟩).isSome := by
+    have := hw.recorded (blk.height, br) (mem_of_find? _ hB) T (by rw [htxs]; exact List.mem_cons_self)
+    simp only [hblkeq] at this
+    exact this
+  unfold rbTx at h
+  cases hrec : r.s.txrecs.find? ⟨T, blk⟩ with
+  | none => rw [hrec] at hsome; cases hsome
+  | some rec =>
+    rw [hrec] at h
+    simp only at h
+    have hhash : rec.hash = T := (hw.recListed ⟨T, blk⟩ rec hrec).1
+    have hrec' : r.s.txrecs.find? ⟨rec.hash, blk⟩ = some rec := by rw [hhash]; exact hrec
+    have hDm : rec.hash ∈ T :: D := by rw [hhash]; exact List.mem_cons_self
+    have hjD : RJ B r.s.txrecs blk (T :: D) r := rj_mono_D (fun x hx => List.mem_cons_of_mem _ hx) hj
+    -- generic conclusion from the facts the loops provide
+    have finish : ∀ r2 : RB, RJ B r.s.txrecs blk (T :: D) r2 → r2.s.txrecs = r.s.txrecs.erase ⟨T, blk⟩ →
+        (∀ p ∈ withIdx rec.outs, r2.s.credits.find? ⟨rec.hash, blk, p.1⟩ = none) →
+        (∀ dk d, r2.s.debits.find? dk = some d → dk.hash = T → dk.block = blk → False) →
+        RJ (B.insert blk.height { br with txs := rest }) r2.s.txrecs blk (T :: D) r2 := by
+      intro r2 hj2 htx2 hcred hdeb
+      rw [htx2]
+      apply rj_drop B r.s.txrecs blk (T :: D) r2 T rec br rest hj2 hB hbh htxs
+      · intro k e1 e2
+        cases hk : r2.s.credits.find? k with
+        | none => rfl
+        | some cv =>
+          exfalso
+          obtain ⟨_, rec0, _, _, _, hr0, hout⟩ := hj2.wf.listed k cv hk
+          have hkt : k.txKey = ⟨rec.hash, blk⟩ := by
+            cases k; simp only [CredKey.txKey] at e1 e2 ⊢; rw [e1, e2, hhash]
+          have hr0' : r.s.txrecs.find? k.txKey = some rec0 := hr0
+          rw [hkt, hrec'] at hr0'; cases hr0'
+          have hm := mem_withIdx rec.outs 0 k.index cv.amount hout
+          rw [Nat.zero_add] at hm
+          have := hcred _ hm
+          have hke : k = ⟨rec.hash, blk, k.index⟩ := by
+            cases k; simp only at e1 e2 ⊢; rw [e1, e2, hhash]
+          rw [← hke, hk] at this; cases this
+      · intro dk e1 e2
+        cases hk : r2.s.debits.find? dk with
+        | none => rfl
+        | some d => exact (hdeb dk d hk e1 e2).elim
+    by_cases hcb : rec.isCoinBase = true
+    · -- coinbase
+      simp only [hcb, if_true, pure_eq, Except.ok.injEq] at h
+      subst h
+      have hj1 : RJ B r.s.txrecs blk (T :: D)
+          { r with s := { r.s with txrecs := r.s.txrecs.erase ⟨T, blk⟩ } } :=
+        rj_congr (r := r) rfl rfl rfl rfl rfl hjD
+      obtain ⟨g1, g2, _, g4⟩ := rj_cbOutputs B r.s.txrecs blk (T :: D) rec hrec' hDm (withIdx rec.outs) _
+        (withIdx_spec rec.outs) hj1
+      apply finish _ g1
+      · rw [foldl_txrecs _ (rbCoinbaseOut_txrecs rec blk)]
+      · exact g2
+      · intro dk d hk e1 e2
+        obtain ⟨⟨⟨rec0, hr0, hin0⟩, _, hidx, _⟩, _⟩ := g1.deb dk d hk
+        have hkt : dk.txKey = ⟨rec.hash, blk⟩ := by
+          cases dk; simp only [CredKey.txKey] at e1 e2 ⊢; rw [e1, e2, hhash]
+        have hr0' : r.s.txrecs.find? dk.txKey = some rec0 := hr0
+        rw [hkt, hrec'] at hr0'; cases hr0'
+        -- the only input of a coinbase is the null outpoint, whose index no credit can have
+        unfold Tx.isCoinBase at hcb
+        split at hcb
+        · rename_i i0 hins
+          rw [hins] at hin0
+          have hi0 : i0.index = nullIndex := by
+            have := hcb; simp only [Bool.and_eq_true, beq_iff_eq] at this; exact this.1
+          cases hdi : dk.index with
+          | zero =>
+            rw [hdi] at hin0
+            simp only [List.getElem?_cons_zero, Option.some.injEq] at hin0
+            have : d.credKey.index = i0.index := by
+              have := congrArg OutPoint.index hin0
+              exact this.symm
+            rw [this, hi0] at hidx
+            exact Nat.lt_irrefl _ hidx
+          | succ j => rw [hdi] at hin0; simp at hin0
+        · cases hcb
+    · -- ordinary transaction: it returns to the unconfirmed bucket
+      simp only [hcb, if_false, pure_eq, Except.ok.injEq, Bool.false_eq_true] at h
+      subst h
+      have hj1 : RJ B r.s.txrecs blk (T :: D)
+          { r with s := { r.s with txrecs := r.s.txrecs.erase ⟨T, blk⟩, unmined := r.s.unmined.insert T rec } } :=
+        rj_congr (r := r) rfl rfl rfl rfl rfl hjD
+      obtain ⟨a1, a2, _, _⟩ := rj_inputs B r.s.txrecs blk (T :: D) rec hrec' (withIdx rec.ins) _
+        (withIdx_spec rec.ins) hj1
+      obtain ⟨g1, g2, _, g4⟩ := rj_outputs B r.s.txrecs blk (T :: D) rec hrec' hDm (withIdx rec.outs) _
+        (withIdx_spec rec.outs) a1
+      apply finish _ g1
+      · rw [foldl_txrecs _ (rbOutput_txrecs rec blk), foldl_txrecs _ (rbInput_txrecs rec blk)]
+      · exact g2
+      · intro dk d hk e1 e2
+        obtain ⟨⟨⟨rec0, hr0, hin0⟩, _⟩, _⟩ := g1.deb dk d hk
+        have hkt : dk.txKey = ⟨rec.hash, blk⟩ := by
+          cases dk; simp only [CredKey.txKey] at e1 e2 ⊢; rw [e1, e2, hhash]
+        have hr0' : r.s.txrecs.find? dk.txKey = some rec0 := hr0
+        rw [hkt, hrec'] at hr0'; cases hr0'
+        have hm := mem_withIdx rec.ins 0 dk.index _ hin0
+        rw [Nat.zero_add] at hm
+        have hnone := a2 _ hm
+        simp only at hnone
+        have hke : dk = ⟨rec.hash, blk, dk.index⟩ := by
+          cases dk; simp only at e1 e2 ⊢; rw [e1, e2, hhash]
+        rw [g4] at hk
+        rw [hke, hnone] at hk; cases hk
+
+/-! ### one block, all blocks, and `rollback` itself -/
+
+theorem rj_block (blk : Block) : ∀ (txs : List Nat) (br : BlockRec) (B : KMap Nat BlockRec) (D : List Nat) (r r' : RB),
+    RJ B r.s.txrecs blk D r → B.find? blk.height = some br → br.hash = blk.hash → br.txs = txs →
+    txs.foldlM (rbTx blk) r = .ok r' →
+    ∃ D', RJ (B.insert blk.height { br with txs := [] }) r'.s.txrecs blk D' r' := by
+  intro txs
+  induction txs with
+  | nil =>
+    intro br B D r r' hj hB hbh htxs h
+    simp only [List.foldlM_nil, pure_eq, Except.ok.injEq] at h
+    subst h
+    refine ⟨D, ?_⟩
+    have : (B.insert blk.height { br with txs := [] }) = B.insert blk.height br := by
+      cases br; simp only at htxs; subst htxs; rfl
+    rw [this]
+    -- re-inserting the value already stored changes no lookup
+    have hw := hj.wf
+    have hfind : ∀ hh, (B.insert blk.height br).find? hh = B.find? hh := by
+      intro hh
+      simp only [find?_insert]
+      split
+      · rename_i e; subst e; exact hB.symm
+      · rfl
+    have hsB' : ((B.insert blk.height br).map (·.1)).Pairwise (· < ·) := sorted_insert_nat _ _ _ hw.sorted
+    have hnB' := nodupKeys_of_sorted _ hsB'
+    have hmem : ∀ p, p ∈ B.insert blk.height br → p ∈ B := by
+      intro p hp
+      obtain ⟨a, b⟩ := p
+      have := find?_of_mem _ hnB' hp
+      rw [hfind] at this
+      exact mem_of_find? _ this
+    refine ⟨⟨hw.nodupCredits, hw.nodupUnspent, hw.nodupUC, hsB', fun p hp => hw.txsNodup p (hmem p hp),
+      fun p hp => hw.recorded p (hmem p hp), ?_, hw.oneBlock, ?_, hw.index, hw.counter⟩, hj.outs, hj.deb⟩
+    · intro k rec0 hk
+      obtain ⟨a, br0, b1, b2, b3⟩ := hw.recListed k rec0 hk
+      exact ⟨a, br0, by show (B.insert blk.height br).find? _ = _; rw [hfind]; exact b1, b2, b3⟩
+    · intro k cv hk
+      obtain ⟨br0, rec0, b1, b2, b3, b4, b5⟩ := hw.listed k cv hk
+      exact ⟨br0, rec0, by show (B.insert blk.height br).find? _ = _; rw [hfind]; exact b1, b2, b3, b4, b5⟩
+  | cons T rest ih =>
+    intro br B D r r' hj hB hbh htxs h
+    rw [List.foldlM_cons] at h
+    cases h1 : rbTx blk r T with
+    | error e => rw [h1] at h; cases h
+    | ok r1 =>
+      rw [h1, bind_ok] at h
+      have hj1 := rj_rbTx B blk D r r1 T br rest hj hB hbh htxs h1
+      obtain ⟨D', hD'⟩ := ih { br with txs := rest } (B.insert blk.height { br with txs := rest }) (T :: D) r1 r' hj1
+        (by simp) hbh rfl h
+      refine ⟨D', ?_⟩
+      rw [insert_insert] at hD'
+      exact hD'
+
+theorem rj_block_done (B : KMap Nat BlockRec) (Tv : KMap TxKey Tx) (blk blk' : Block) (D : List Nat) (r : RB)
+    (br : BlockRec) (hj : RJ B Tv blk D r) (hB : B.find? blk.height = some br) (hempty : br.txs = [])
+    (htop : ∀ hh br', B.find? hh = some br' → hh ≤ blk.height) :
+    RJ (B.erase blk.height) Tv blk' [] r := by
+  have hw := hj.wf
+  have hsB' : ((B.erase blk.height).map (·.1)).Pairwise (· < ·) := sorted_erase_nat _ _ hw.sorted
+  have hnB' := nodupKeys_of_sorted _ hsB'
+  have hmem : ∀ p, p ∈ B.erase blk.height → p ∈ B := by
+    intro p hp; unfold erase at hp; exact (List.mem_filter.mp hp).1
+  have hkeep : ∀ hh br0 (x : Nat), B.find? hh = some br0 → x ∈ br0.txs → (B.erase blk.height).find? hh = some br0 := by
+    intro hh br0 x h0 hx
+    rw [find?_erase_ne _ (by
+      intro e; subst e; rw [hB] at h0; cases h0; rw [hempty] at hx; cases hx)]
+    exact h0
+  refine ⟨⟨hw.nodupCredits, hw.nodupUnspent, hw.nodupUC, hsB', fun p hp => hw.txsNodup p (hmem p hp),
+    fun p hp => hw.recorded p (hmem p hp), ?_, hw.oneBlock, ?_, hw.index, hw.counter⟩, hj.outs, ?_⟩
+  · intro k rec0 hk
+    obtain ⟨a, br0, b1, b2, b3⟩ := hw.recListed k rec0 hk
+    exact ⟨a, br0, hkeep _ br0 k.hash b1 b3, b2, b3⟩
+  · intro k cv hk
+    obtain ⟨br0, rec0, b1, b2, b3, b4, b5⟩ := hw.listed k cv hk
+    exact ⟨br0, rec0, hkeep _ br0 k.hash b1 b3, b2, b3, b4, b5⟩
+  · intro dk d hf
+    obtain ⟨hb1, hl1⟩ := hj.deb dk d hf
+    refine ⟨hb1, ?_⟩
+    rcases hl1 with hl | ⟨_, a2, _⟩
+    · exact Or.inl hl
+    · -- a dangling debit would belong to a transaction recorded in this (now empty) block or above: impossible
+      exfalso
+      obtain ⟨⟨rec0, hr0, _⟩, hle, _⟩ := hb1
+      obtain ⟨_, br0, b1, _, b3⟩ := hw.recListed dk.txKey rec0 hr0
+      have h1 : dk.block.height ≤ blk.height := htop _ br0 b1
+      have h2 : dk.block.height ≠ blk.height := by
+        intro e
+        have b1' : B.find? blk.height = some br0 := by
+          have : dk.txKey.block.height = dk.block.height := rfl
+          rw [← e, ← this]; exact b1
+        rw [hB] at b1'; cases b1'
+        rw [hempty] at b3; cases b3
+      rw [a2] at hle
+      omega
+
+/-- the block bucket after erasing a list of heights -/
+def eraseBlocks (B : KMap Nat BlockRec) (L : List (Nat × BlockRec)) : KMap Nat BlockRec :=
+  L.foldl (fun B p => B.erase p.1) B
+
+theorem rj_blocks : ∀ (L : List (Nat × BlockRec)) (B : KMap Nat BlockRec) (blk0 : Block) (r r' : RB)
+    (rest : List (Nat × BlockRec)),
+    RJ B r.s.txrecs blk0 [] r → B.reverse = L ++ rest →
+    L.foldlM (fun r (p : Nat × BlockRec) => p.2.txs.foldlM (rbTx ⟨p.1, p.2.hash⟩) r) r = .ok r' →
+    ∃ blk1, RJ (eraseBlocks B L) r'.s.txrecs blk1 [] r' := by
+  intro L
+  induction L with
+  | nil =>
+    intro B blk0 r r' rest hj _ h
+    simp only [List.foldlM_nil, pure_eq, Except.ok.injEq] at h
+    subst h; exact ⟨blk0, hj⟩
+  | cons p t ih =>
+    intro B blk0 r r' rest hj hrev h
+    obtain ⟨hh, br⟩ := p
+    rw [List.foldlM_cons] at h
+    cases h1 : br.txs.foldlM (rbTx ⟨hh, br.hash⟩) r with
+    | error e => rw [h1] at h; simp at h
+    | ok r1 =>
+      rw [h1, bind_ok] at h
+      have hw := hj.wf
+      -- (hh, br) is the last, greatest entry of B
+      have hBeq : B = (t ++ rest).reverse ++ [(hh, br)] := by
+        have := congrArg List.reverse hrev
+        rw [List.reverse_reverse] at this
+        rw [this]; simp
+      have hsB : (B.map (·.1)).Pairwise (· < ·) := hw.sorted
+      have hnB := nodupKeys_of_sorted _ hsB
+      have hB : B.find? hh = some br := find?_of_mem _ hnB (by rw [hBeq]; simp)
+      have htop : ∀ h' br', B.find? h' = some br' → h' ≤ hh := by
+        intro h' br' hf
+        have hm := mem_of_find? _ hf
+        rw [hBeq] at hm hsB
+        rw [List.mem_append] at hm
+        rcases hm with hm | hm
+        · rw [List.map_append, List.pairwise_append] at hsB
+          have := hsB.2.2 h' (List.mem_map.mpr ⟨(h', br'), hm, rfl⟩) hh (by simp)
+          omega
+        · simp only [List.mem_singleton, Prod.mk.injEq] at hm
+          omega
+      have hjb : RJ B r.s.txrecs ⟨hh, br.hash⟩ [] r := ⟨hj.wf, hj.outs, fun dk d hf => by
+        obtain ⟨a, b⟩ := hj.deb dk d hf
+        refine ⟨a, ?_⟩
+        rcases b with b | ⟨_, _, b3⟩
+        · exact Or.inl b
+        · cases b3⟩
+      obtain ⟨D', hD'⟩ := rj_block ⟨hh, br.hash⟩ br.txs br B [] r r1 hjb hB rfl rfl h1
+      have hdone := rj_block_done (B.insert hh { br with txs := [] }) r1.s.txrecs ⟨hh, br.hash⟩ ⟨hh, br.hash⟩ D' r1
+        { br with txs := [] } hD' (by simp) rfl (by
+          intro h' br' hf
+          simp only [find?_insert] at hf
+          split at hf
+          · rename_i e; rw [← e]; exact Nat.le_refl _
+          · exact htop h' br' hf)
+      have herase : (B.insert hh { br with txs := [] }).erase hh = B.erase hh := by
+        unfold KMap.insert; rw [erase_place_self, erase_erase]
+      simp only at hdone
+      rw [herase] at hdone
+      have hBe : B.erase hh = (t ++ rest).reverse := by
+        rw [hBeq]; rw [hBeq] at hsB; exact erase_last_nat _ hh br hsB
+      obtain ⟨blk1, hfin⟩ := ih (B.erase hh) ⟨hh, br.hash⟩ r1 r' rest hdone (by rw [hBe]; simp) h
+      exact ⟨blk1, hfin⟩
+
+theorem foldl_eraseBlocks_store (L : List (Nat × BlockRec)) (s : Store) :
+    L.foldl (fun s p => { s with blocks := s.blocks.erase p.1 }) s = { s with blocks := eraseBlocks s.blocks L } := by
+  induction L generalizing s with
+  | nil => rfl
+  | cons p t ih =>
+    simp only [List.foldl_cons, eraseBlocks]
+    rw [ih]; rfl
+
+/-- **`rollback` preserves `WF2`** — for every store satisfying the invariant and every height -/
+theorem wf2_rollback {s s' : Store} {height : Int} (hw : WF2 s) (h : rollback s height = .ok s') : WF2 s' := by
+  unfold rollback at h
+  simp only [bind, Except.bind] at h
+  split at h
+  · cases h
+  · rename_i r hr
+    split at h
+    · cases h
+    · rename_i s2 hs2
+      simp only [pure, Except.pure, Except.ok.injEq] at h
+      subst h
+      -- the main loop
+      have hj0 : RJ s.blocks (⟨s, s.minedBalance, []⟩ : RB).s.txrecs ⟨0, 0⟩ [] ⟨s, s.minedBalance, []⟩ :=
+        ⟨hw.wf, hw.outs, fun dk d hf => by
+          obtain ⟨a, b⟩ := hw.deb dk d hf
+          exact ⟨a, Or.inl b⟩⟩
+      have hpre := @List.takeWhile_append_dropWhile _ (fun p : Nat × BlockRec => !decide ((p.1 : Int) < height))
+        s.blocks.reverse
+      obtain ⟨blk1, hfin⟩ := rj_blocks _ s.blocks ⟨0, 0⟩ ⟨s, s.minedBalance, []⟩ r _ hj0 hpre.symm hr
+      have hb : r.s.blocks = s.blocks := by
+        refine foldlM_rb_blocks _ ?_ _ _ r hr
+        intro a p a' hstep
+        exact foldlM_rb_blocks _ (fun _ _ _ h => rbTx_blocks h) _ _ _ hstep
+      -- the store after deleting the block records, with the running balance as counter
+      have hw1 : WF2 { (List.foldl (fun s p => { s with blocks := s.blocks.erase p.1 }) r.s
+          (s.blocks.reverse.takeWhile fun p => !decide ((p.1 : Int) < height))) with minedBalance := r.bal } := by
+        rw [foldl_eraseBlocks_store, hb]
+        refine ⟨hfin.wf, ?_, hfin.outs⟩
+        intro dk d hf
+        obtain ⟨a, b⟩ := hfin.deb dk d hf
+        refine ⟨a, ?_⟩
+        rcases b with b | ⟨_, _, b3⟩
+        · exact b
+        · cases b3
+      -- removing the unconfirmed spenders of detached coinbase outputs touches only the unconfirmed buckets
+      generalize List.foldl (fun s p => { s with blocks := s.blocks.erase p.1 }) r.s
+          (s.blocks.reverse.takeWhile fun p => !decide ((p.1 : Int) < height)) = S at hs2 hw1
+      have hsm : SameMined S s2 := by
+        refine foldlM_preserves (SameMined S) _ ?_ _ S s2 (SameMined.refl S) hs2
+        intro a op a' ha hstep
+        refine foldlM_preserves (SameMined S) _ ?_ _ a a' ha hstep
+        intro b hsh b' hb' hst
+        split at hst
+        · simp only [pure_eq, Except.ok.injEq] at hst; subst hst; exact hb'
+        · exact hb'.trans (sameMined_removeConflict _ _ _ _ hst)
+      have hnuc : NUC S s2 := by
+        refine foldlM_preserves (NUC S) _ ?_ _ S s2 id hs2
+        intro a op a' ha hstep
+        refine foldlM_preserves (NUC S) _ ?_ _ a a' ha hstep
+        intro b hsh b' hb' hst
+        split at hst
+        · simp only [pure_eq, Except.ok.injEq] at hst; subst hst; exact hb'
+        · exact fun hn => nuc_removeConflict _ _ _ _ hst (hb' hn)
+      obtain ⟨e1, e2, e3, e4, _, e6⟩ := hsm
+      exact wf2_of_sameMined (s := { S with minedBalance := r.bal }) ⟨e1, e2, e3, e4, rfl, e6⟩
+        (hnuc hw1.wf.nodupUC) hw1
+
 end TxStore
